@@ -38,7 +38,9 @@ ASSUMPTIONS = [
     "--force-dot-license is not combined with a pre-existing in-file header (the sibling then shadows the file by design, C04)",
 ]
 
-BODIES = ["", "code();\n", "\n\nline one\nline two\n", "#!/usr/bin/env python3\nprint('x')\n"]
+BODIES = ["", "code();\n", "\n\nline one\nline two\n", "#!/usr/bin/env python3\nprint('x')\n",
+          # content that declares an encoding of its own (the linter reads UTF-8 whatever it says)
+          "# -*- coding: latin-1 -*-\nprint('x')\n", '<?xml version="1.0" encoding="ISO-8859-1"?>\n<a/>\n']
 
 
 @st.composite
